@@ -3,7 +3,7 @@ Definition to_citem (is_linetable : bool) (i : Z * Z) : res (option Z * Z) := (O
 Definition bytecode_offset_split (is_linetable : bool) (prev_item item : option Z * Z) : res bool :=
   (OK ((opt_eqz (if is_linetable then (fst item) else (fst prev_item)) (0)) && (Z.geb (snd prev_item) (if is_linetable then (254) else (255))) && (negb (Z.eqb (snd item) (0))) && (negb (is_none (fst prev_item))))).
 Definition line_offset_split (is_linetable : bool) (prev_item item : option Z * Z) : res bool :=
-  (and_r (OK (Z.eqb (if is_linetable then (snd prev_item) else (snd item)) (0))) (and_r (OK (negb (is_none (fst prev_item)))) (and_r (or_r (bind (un_o (fst prev_item)) (fun x1 => (OK (Z.geb x1 (127))))) (bind (un_o (fst prev_item)) (fun x2 => (OK (Z.leb x2 (if is_linetable then (- (127)) else (- (128)))))))) (and_r (OK (negb (is_none (fst item)))) (ite_r (bind (un_o (fst prev_item)) (fun x3 => (OK (Z.gtb x3 (0))))) (bind (un_o (fst item)) (fun x4 => (OK (Z.gtb x4 (0))))) (bind (un_o (fst item)) (fun x5 => (OK (Z.ltb x5 (0)))))))))).
+  (and_r (OK (Z.eqb (if is_linetable then (snd prev_item) else (snd item)) (0))) (and_r (OK (negb (is_none (fst prev_item)))) (and_r (or_r (bind (un_o (fst prev_item)) (fun x3 => (OK (Z.geb x3 (127))))) (bind (un_o (fst prev_item)) (fun x4 => (OK (Z.leb x4 (if is_linetable then (- (127)) else (- (128)))))))) (and_r (OK (negb (is_none (fst item)))) (ite_r (bind (un_o (fst prev_item)) (fun x5 => (OK (Z.gtb x5 (0))))) (bind (un_o (fst item)) (fun x6 => (OK (Z.gtb x6 (0))))) (bind (un_o (fst item)) (fun x7 => (OK (Z.ltb x7 (0)))))))))).
 Record st := mk_st { v_prev_item_line_offset : option Z; v_prev_item_bytecode_offset : Z }.
 Definition set_v_prev_item_line_offset (s : st) (x : _) : st := mk_st x (v_prev_item_bytecode_offset s).
 Definition set_v_prev_item_bytecode_offset (s : st) (x : _) : st := mk_st (v_prev_item_line_offset s) x.
